@@ -7,4 +7,5 @@ CONSTANTS
   UseScan = "all"
   AddRollback = TRUE
   NsEmptyQuals = TRUE
+  AddTypeError = TRUE
 CHECK_DEADLOCK FALSE
